@@ -92,11 +92,15 @@ SigBy(d, p, o) ==
        ELSE IF Explains(pr, o.kind) THEN pr.cls ELSE ""
 
 \* first the walkers as the code is, then (regression of a repaired defect) the walkers with the old deviations
-Sig(d, p, o) ==
+\* via: for a document of the systematic key sweep (keys harvested from the sources under test, bound to references
+\* forming cycles among visited dictionaries) the keys on the cycle, e.g. "cycle.Last.Prev"; "" otherwise.  A failure
+\* no walker model explains is named by the call and, when there is one, by those keys.
+Sig(d, p, o, via) ==
     LET now == SigBy(d, p, o) IN
     IF now # "" THEN now
     ELSE LET was == SigBy(d, PredOld(d), o) IN
-         IF was # "" THEN was ELSE (IF o.q = "all" THEN "all." ELSE o.q \o ".") \o o.kind
+         IF was # "" THEN was
+         ELSE (IF o.q = "all" THEN "all." ELSE o.q \o ".") \o o.kind \o (IF via # "" THEN ":" \o via ELSE "")
 
 IsTag(t) == t \in {"ok", "err"}
 
@@ -170,7 +174,7 @@ JudgeFam(rec) ==
 JudgeDoc(rec) ==
     LET d    == rec.doc
         p    == Pred(d)
-        sigs == [j \in 1..Len(rec.obs) |-> Sig(d, p, rec.obs[j])]
+        sigs == [j \in 1..Len(rec.obs) |-> Sig(d, p, rec.obs[j], rec.via)]
         dr   == IF rec.ran THEN Drift(d, p, rec.res) ELSE 0
     IN [v     |-> IF Len(rec.obs) > 0 THEN "bad" ELSE IF dr > 0 THEN "ok-drift" ELSE "ok",
         sigs  |-> sigs,
